@@ -271,12 +271,11 @@ class MedianBlockCollection(BlockCollection):
     def _makeRepresentativeBlock(self):
         """Get the median burnup block."""
         medianBlock = self._getMedianBlock()
-        # copy so we can adjust LFPs w/o changing the global ones
+        # copy so the LFPs of the representative block can be adjusted w/o changing the global ones
         newBlock = copy.deepcopy(medianBlock)
         lfpCollection = medianBlock.getLumpedFissionProductCollection()
         if lfpCollection:
             lfpCollection = lfpCollection.duplicate()
-            lfpCollection.setGasRemovedFrac(newBlock.p.gasReleaseFraction)
             newBlock.setLumpedFissionProducts(lfpCollection)
         else:
             runLog.warning("Representative block {0} has no LFPs".format(medianBlock))
